@@ -378,12 +378,13 @@ MProd(x) ==
 \* entries of the fill become negative zeros, which a bit-exact round trip has to preserve)
 Copies(op, x) ==
     /\ op \in OPS
-    /\ \E origin \in {"cores", "tview", "slice2", "svd", "neg"} :
+    /\ \E origin \in {"cores", "tview", "slice2", "svd", "neg", "conj"} :      \* conj: x.conj() of a complex object (lazily conjugated core views)
+        /\ (origin = "conj" => x.cx)
         /\ (origin = "tview" => x.k = "ttm")
         /\ (origin = "slice2" => x.k = "tt" /\ x.I[1] >= 2)
         /\ LET X == Mk(x)  DX == Full(X)
                e == <<[t |-> "s", lo |-> NONE, hi |-> NONE, st |-> 2]>>
-               D == IF origin = "slice2" THEN DIndex(DX, e) ELSE IF origin = "neg" THEN DNeg(DX) ELSE DX
+               D == IF origin = "slice2" THEN DIndex(DX, e) ELSE IF origin = "neg" THEN DNeg(DX) ELSE IF origin = "conj" THEN DConj(DX) ELSE DX
                N == IF x.k = "tt" THEN D.sh ELSE x.J IN
            /\ case' = [op |-> op, x |-> x, origin |-> origin]
            /\ res' = IF op = "numpy" THEN DenseRes(D, "must") @@ [tol |-> IF origin = "svd" THEN "roundoff" ELSE "exact"]
